@@ -1586,20 +1586,28 @@ class HistGen:
         return out
 
 
-def interpret_history(script):
-    """abstract state (confirmed mode, tld, mask) at each `e`, and whether a failed setup intervened before each `m`"""
+def interpret_history(script, idnkit=False):
+    """abstract state (confirmed mode, tld, mask) at each `e`, and whether a failed setup intervened before each `m`.
+    idnkit: `y` makes the next creation of the resolver context fail - an eav_setup for 6531 on an object without a context is then refused
+    and the mode confirmed before stays in force"""
     mode_confirmed, rfc, tld, mask = None, 6531, 1, 760
     out = []
     inj = None
     last = None        # what errstr should describe: ("e", idx) or ("setupfail",) or None
+    failnext, has_ctx = False, False
     for i, o in enumerate(script.split(";")):
         if o == "i":
-            mode_confirmed, rfc, tld, mask, last = None, 6531, 1, 760, ("init",)
+            mode_confirmed, rfc, tld, mask, last, has_ctx = None, 6531, 1, 760, ("init",), False
         elif o[0] == "r": rfc = int(o[1:])
         elif o[0] == "t": tld = int(o[1:])
         elif o[0] == "k": mask = int(o[1:])
+        elif o == "y":
+            failnext = failnext or idnkit
         elif o == "s":
-            if rfc in (822, 5321, 5322, 6531): mode_confirmed = rfc
+            if rfc == 6531 and failnext and not has_ctx:
+                failnext = False; last = ("createfail",)              # refused: nothing changes but the stored message
+            elif rfc in (822, 5321, 5322, 6531):
+                mode_confirmed = rfc; has_ctx = (rfc == 6531)
             else: last = ("setupfail",)
         elif o[0] == "x":
             inj = None if o == "x0" else o[1:]
@@ -1616,8 +1624,9 @@ def check_histories(ctx, name, scripts, variant="default"):
     c = ctx.K(name, variant, ops, nontrivial=lambda op, ln: True)
     # fresh-object outcomes for every (mode, tld, mask, addr) met without injection
     need = {}
+    idnkit = variant.startswith("be:idnkit")
     for sc in scripts:
-        for i, kind, st in interpret_history(sc):
+        for i, kind, st in interpret_history(sc, idnkit):
             if kind == "e" and st[4] is None:
                 need[st[:4]] = None
     keys = sorted(need, key=str)
@@ -1627,7 +1636,7 @@ def check_histories(ctx, name, scripts, variant="default"):
     for sc, cl in zip(scripts, c):
         parts = cl[2:].split(";")
         outs = {}
-        for i, kind, st in interpret_history(sc):
+        for i, kind, st in interpret_history(sc, idnkit):
             got = parts[i] if i < len(parts) else "?"
             if kind == "e":
                 outs[i] = got
@@ -1764,6 +1773,25 @@ def c13(ctx):
     for v in [x for x in ctx.drives if x.startswith("be:")]:
         check_two_objects(ctx, "two-objects", two_object_scripts(ctx, "ж@почта.рф".encode()), variant=v)
         check_histories(ctx, "history", [sc for sc in scripts if "x" not in sc][:: (7 if ctx.tier == "quick" else 1)], variant=v)
+    # idnkit: the resolver context cannot be created (stand-in injection `y`): the refused eav_setup changes nothing - every validation after it is
+    # that of the mode confirmed by the last SUCCESSFUL eav_setup, on a fresh object; contexts created = destroyed at the end
+    if "be:idnkit" in ctx.drives:
+        pr = [hx(x) for x in ("user@\u043f\u043e\u0447\u0442\u0430.\u0440\u0444".encode(), b"user@xn--80a1acny.xn--p1ai", b"user@b.com", "\u0436@b.com".encode(), b'"a b"@b.com', b"a@[1.2.3.4]", b"")]
+        es = ";".join("e" + a_ for a_ in pr)
+        ys = []
+        for m0 in MODES:
+            if m0 != 6531:
+                ys += ["i;r%d;s;%s;r6531;y;s;%s;m;r6531;s;%s;f" % (m0, es, es, es), "i;r%d;y;s;%s;r6531;s;%s;r6531;s;%s;f" % (m0, es, es, es),
+                       "i;t0;r%d;s;r6531;y;s;y;s;%s;r%d;s;%s;f" % (m0, es, m0, es), "i;r%d;s;r6531;y;s;r7;s;m;%s;f" % (m0, es)]
+            else:
+                ys += ["i;r6531;s;%s;y;s;%s;r5321;s;%s;r6531;s;%s;f" % (es, es, es, es), "i;r6531;s;r822;s;r6531;y;s;%s;r6531;s;%s;f" % (es, es)]
+        for _ in range(40 if ctx.tier == "quick" else 400):
+            n_ = ctx.rng.randint(3, 25)
+            body = []
+            for _k in range(n_):
+                body.append(ctx.rng.choice(["y", "s", "s", "r6531", "r6531", "r5321", "r822", "r7", "t0", "t1", "m", "e" + ctx.rng.choice(pr), "e" + ctx.rng.choice(pr)]))
+            ys.append("i;r5322;s;" + ";".join(body) + ";f")
+        check_histories(ctx, "context-creation-fails", ys, variant="be:idnkit")
 RULES["C13"] = "distinct legal call histories (init first, is_email only after a successful setup, free last): exhaustive sequences of 3 (4 thorough) operations from a pool of 13 after init+setup, random histories of length 10-200 (1000 thorough); every eav_is_email compared with a fresh object given the same settings; LeakSanitizer at exit"
 
 
@@ -2034,9 +2062,8 @@ def c18(ctx):
             for t_ in (0, 1):
                 withf += ["i;t%d;r6531;y;s;r%d;s;%s;f" % (t_, m, es), "i;t%d;r6531;y;s;r6531;y;s;r%d;s;%s;r%d;s;%s;f" % (t_, m, es, m, es)]
                 plain += ["i;t%d;r%d;s;%s;f" % (t_, m, es), "i;t%d;r%d;s;%s;r%d;s;%s;f" % (t_, m, es, m, es)]
-        cw, _ = ctx.run("resolver-failure", be, ["H " + x for x in withf])
-        cp, _ = ctx.run("resolver-failure-ref", be, ["H " + x for x in plain])
-        ctx.evals += len(withf) * 2
+        cw = ctx.K("resolver-failure", be, ["H " + x for x in withf], nontrivial=lambda op, ln: True)
+        cp = ctx.K("resolver-failure-ref", be, ["H " + x for x in plain], nontrivial=lambda op, ln: True)
         for sw, a, b in zip(withf, cw, cp):
             ctx.nontrivial.add(be + ":" + sw)
             ea = [x for x in re.sub(r";R[-\d,]+$", "", a[2:]).split(";") if x[:1] in ("e", "m")]
